@@ -29,7 +29,7 @@ Definition single_obs (p q r : rot QcRing) (v : vec3 QcRing) :=
    (NM (rinv _ p), snd (rinv _ p)), (NM (rcompose _ p (rinv _ p)), snd (rcompose _ p (rinv _ p))),
    qv (mapply _ (nmatQ p) v), qv (mapply _ (mtrans _ (nmatQ p)) v),
    map (fun n => (NM (rpow _ n p), snd (rpow _ n p))) powers,
-   this (sgn QcRing (snd p))).
+   qz (sgn QcRing (snd p))).
 Definition pair_obs (n : Z) (pq : rot QcRing * rot QcRing) :=
   (NM (rcompose _ (fst pq) (snd pq)), snd (rcompose _ (fst pq) (snd pq)), NM (rpow _ n (fst pq)), snd (rpow _ n (fst pq))).
 '''
@@ -90,11 +90,11 @@ def flags(r):
 
 
 def frac(x):
-    return float(x)
+    return x[0] / x[1] if isinstance(x, tuple) else float(x)
 
 
 def close(a, b, tol=TOL):
-    a, b = np.asarray(a, dtype=float), np.asarray([[frac(y) for y in row] if isinstance(row, (list, tuple)) else frac(row) for row in b], dtype=float)
+    a, b = np.asarray(a, dtype=float), np.asarray([frac(y) for y in b], dtype=float)
     if a.shape != b.shape:
         return f'shape {a.shape} vs {b.shape}'
     if not np.all(np.isfinite(a)):
@@ -395,7 +395,7 @@ def _rand_index(rng, shape, for_set=False):
             return {'t': 'int', 'v': rng.randint(-n, n - 1)}
         if r < 0.5:
             return {'t': 'slice', 'v': [None, None, None]}
-        st = rng.choice([1, 1, 2, -1, -2])
+        st = rng.choice([1, 1, 2, 3, None])
         a = rng.choice([None, rng.randint(-n, n - 1)])
         b = rng.choice([None, rng.randint(-n, n)])
         return {'t': 'slice', 'v': [a, b, st]}
@@ -584,11 +584,13 @@ def cmp_history(c, o, m):
         return None   # a square root in the rational model was not exact: model not applicable (generator avoids this)
     if len(trace) != len(o['steps']):
         return 'trace length'
+    refl = False
     for k, (st, rec) in enumerate(zip(trace, o['steps'])):
+        refl = refl or c['ops'][k]['op'] == 'reflect'
         if len(st) != len(rec['M']):
             return f'after edit {k} ({c["ops"][k]["op"]}): {len(rec["M"])} elements, model {len(st)}'
         for j, (Mj, fj) in enumerate(st):
-            e = close(rec['M'][j], Mj)
+            e = close(rec['M'][j], Mj, 1e-5 if refl else TOL)   # reflect() adds pi in float32
             if e or rec['f'][j] != fj:
                 return f'after edit {k} ({c["ops"][k]["op"]}) element {j}: {e or "improper flag " + str(rec["f"][j]) + " vs model " + str(fj)}'
     return None
@@ -603,27 +605,22 @@ def oracle_history(c, o):
     q = np.array(o['q0']).reshape(-1, 4)
     shape = list(c['shape0'])
     denorm = False
+    refl = False
 
     def mnorm(A):
         return A / np.sqrt(np.sum(A[:, :, 0] ** 2, axis=1))[:, None, None]
     for k, (op, rec) in enumerate(zip(c['ops'], o['steps'])):
         name = op['op']
         if name == 'get':
-            idx = _to_index(op['ix'], np)
-            eM, ef = M.reshape(*shape, 3, 3)[idx], f.reshape(shape)[idx]
-            shape = list(np.shape(ef))
-            eM, ef = eM.reshape(-1, 3, 3), np.asarray(ef).reshape(-1)
+            shape, sel = _select(shape, op['ix'])
+            eM, ef = M[sel], f[sel]
         elif name == 'set':
-            idx = _to_index(op['ix'], np)
-            eM, ef = M.reshape(*shape, 3, 3).copy(), f.reshape(shape).copy()
+            vs, sel = _select(shape, op['ix'])
+            eM, ef = M.copy(), f.copy()
             vM, vf = np.array(rec['valM']).reshape(-1, 3, 3), np.array(rec['valf'], dtype=bool)
-            if op['vshape'] is not None:
-                vM, vf = vM.reshape(*op['vshape'], 3, 3), vf.reshape(op['vshape'])
-            else:
-                vM, vf = vM[0], vf[0]
-            eM[idx] = vM
-            ef[idx] = vf
-            eM, ef = eM.reshape(-1, 3, 3), ef.reshape(-1)
+            if op['vshape'] is None:
+                vM, vf = np.repeat(vM, len(sel), axis=0), np.repeat(vf, len(sel))
+            eM[sel], ef[sel] = vM, vf
         elif name == 'concat':
             eM = np.concatenate([M, np.array(rec['valM']).reshape(-1, 3, 3)])
             ef = np.concatenate([f, np.array(rec['valf'], dtype=bool)])
@@ -636,6 +633,7 @@ def oracle_history(c, o):
             v = q[:, :3]
             H = np.eye(3)[None] - 2 * v[:, :, None] * v[:, None, :] / np.sum(v * v, axis=1)[:, None, None]
             eM, ef = H @ mnorm(M), ~f
+            refl = True
         else:
             qn = q.copy()
             vals = op['vals'] * len(qn) if op['scalar'] else op['vals']
@@ -645,6 +643,7 @@ def oracle_history(c, o):
             denorm = True
         gM, gf = np.array(rec['M']).reshape(-1, 3, 3), np.array(rec['f'], dtype=bool)
         what = f'edit {k} ({name}{" " + str(op.get("ix")) if "ix" in op else ""})'
+        t = 1e-5 if refl else 1e-9    # reflect() adds pi in float32 (pi * reflection.float()): ~1e-7 relative error
         if list(rec['shape']) != list(shape):
             return f'{what}: batch shape {rec["shape"]}, expected {shape}'
         if gM.shape != eM.shape or not np.all(np.isfinite(gM)) or np.max(np.abs(gM - eM), initial=0.0) > t:
